@@ -279,3 +279,26 @@ V("c16-preserving-distinctness-set", "C16", "silent",
   (PSTEPS, "    modes = instruction.modes\n\n    # NOTE: The comparison", "    modes = instruction.modes\n    assert len(set(modes)) == len(modes)\n\n    # NOTE: The comparison"))
 V("c16-preserving-list-wrap", "C16", "silent",
   (PSTEPS, "    marginal_sampling = tuple(modes) != tuple(range(state.d))", "    marginal_sampling = list(modes) != list(range(state.d))"))
+
+# ------------------------------------------------------------------------------------------- C09
+JAXC = "piquasso/_simulators/connectors/jax_/connector.py"
+TFC = "piquasso/_simulators/connectors/tensorflow_/connector.py"
+V("c09-jax-missing-method", "C09", {"rule": "C09a", "contains": "JaxConnector.svd"},
+  (JAXC, "    def svd(self, *args, **kwargs):\n        return self.np.linalg.svd(*args, **kwargs)\n", ""))
+V("c09-tf-assign-signature", "C09", {"rule": "C09a", "contains": "TensorflowConnector.assign"},
+  (TFC, "    def assign(self, array, index, value):", "    def assign(self, array, index):\n        value = 0"))
+V("c09-jax-polar-extra-required", "C09", {"rule": "C09a", "contains": "JaxConnector.polar"},
+  (JAXC, "    def polar(self, a, side):", "    def polar(self, a, side, method):"))
+V("c09-inplace-on-connector-array", "C09", {"rule": "C09b", "contains": "_apply_matrix_on_modes"},
+  ("piquasso/_simulators/passive/simulation_steps.py", "    embedded = connector.assign(\n        embedded, fallback_np.ix_(actual_modes, actual_modes), matrix\n    )", "    embedded[fallback_np.ix_(actual_modes, actual_modes)] = matrix"))
+V("c09-assign-result-discarded", "C09", {"rule": "C09b", "contains": "assign-result-discarded"},
+  ("piquasso/_simulators/passive/simulation_steps.py", "    embedded = connector.assign(\n        embedded, fallback_np.ix_(actual_modes, actual_modes), matrix\n    )", "    connector.assign(\n        embedded, fallback_np.ix_(actual_modes, actual_modes), matrix\n    )"))
+V("c09-validate-no-abstract-guard", "C09", {"rule": "C09c", "contains": "Thermal"},
+  (PREPS, "        mean_photon_numbers = self.params[\"mean_photon_numbers\"]\n\n        if connector.is_abstract(mean_photon_numbers):\n            return\n", "        mean_photon_numbers = self.params[\"mean_photon_numbers\"]\n"))
+V("c09-validate-guard-after-use", "C09", {"rule": "C09c", "contains": "Interferometer"},
+  (GATES, "        if connector.is_abstract(matrix):\n            return\n\n        if not is_square(matrix):\n            raise InvalidParameter(\n                \"The interferometer matrix should be a square matrix.\"\n            )\n",
+   "        if not is_square(matrix):\n            raise InvalidParameter(\n                \"The interferometer matrix should be a square matrix.\"\n            )\n\n        if connector.is_abstract(matrix):\n            return\n"))
+V("c09-preserving-host-array-write", "C09", "silent",
+  ("piquasso/_simulators/passive/simulation_steps.py", "    embedded = np.identity(len(state.interferometer), dtype=state._config.complex_dtype)\n", "    embedded = np.identity(len(state.interferometer), dtype=state._config.complex_dtype)\n    scratch = fallback_np.zeros(3)\n    scratch[0] = 1.0\n"))
+V("c09-preserving-new-connector-method", "C09", "silent",
+  (JAXC, "    def svd(self, *args, **kwargs):", "    def eigh(self, *args, **kwargs):\n        return self.np.linalg.eigh(*args, **kwargs)\n\n    def svd(self, *args, **kwargs):"))
